@@ -357,6 +357,36 @@ example :
 
 /-! ### Source -/
 
+/-- when construction took nothing from the first element, the flow that `Source.__call__` takes
+from it is the element's whole flow -/
+theorem Src.flow_of_consumed_zero (s : Src α) (h : s.consumed = 0) : s.flow = s.first.sourceFlow := by
+  unfold Src.flow Element.sourceFlow
+  by_cases hc : s.first.call = true
+  · simp [hc]
+  · by_cases ho : s.first.onePass = true
+    · simp [hc, ho, h]
+    · simp [hc, ho]
+
+/-- **Construction does not consume the first element.**  `Source(*args)` keeps its first data
+argument as it is and takes no value from it — also when it is a one-pass iterator (a generator
+object, `iter(...)`, `map(...)`): nothing is lost before `Source.__call__`. -/
+theorem source_construction_consumes_nothing (args : List (Element α)) (src : Src α)
+    (h : mkSource args = .ok src) :
+    src.consumed = 0 ∧ ∃ rest, dataSeq args = src.first :: rest := by
+  unfold mkSource at h
+  split at h
+  · cases h
+  · split at h
+    · cases h
+    · next first rest hds =>
+      split at h
+      · cases h
+      · split at h
+        · split at h
+          · cases h
+          · cases h; exact ⟨rfl, rest, hds⟩
+        · cases h; exact ⟨rfl, rest, hds⟩
+
 /-- **Source.**  `Source(f, *tl)` (with `f` a data element that is callable or iterable) can be
 constructed exactly when `Sequence(*tl)` can, fails with the same exception otherwise, and
 `Source(f, *tl)()` is `Sequence(*tl).run` applied to the flow of `f`. -/
